@@ -42,9 +42,9 @@ def scenario(B, G, kind, n, h):
     tot = O.frac(0)
     for k, v in enumerate(rows):
         re, im = psi[0, k], psi[1, k]
-        G.eq("born[%d]" % k, re * re + im * im, prob[k])
+        G.eq("born[%d]" % k, re * re + im * im, prob[k], tol=1e-10)  # products and squares of doubles: compared relatively (no absolute slack), so that tiny probabilities count
         G.eq("marginal[%d]" % k, prob[k], C.rbm_hidden_marginal(O, P["am"], v))
-        G.eq("amp2[%d]" % k, amp[k] * amp[k], prob[k])
+        G.eq("amp2[%d]" % k, amp[k] * amp[k], prob[k], tol=1e-10)
         G.nonneg("amp>=0[%d]" % k, amp[k])
         if kind.startswith("complex"):
             phase_ref = O.frac(1, 2) * C.rbm_neg_eff_energy(O, P["ph"], v)
@@ -85,7 +85,7 @@ def scenario(B, G, kind, n, h):
     for k, v in enumerate(rows):
         tot2 = tot2 + prob2[k]
         G.eq("reparam.marginal[%d]" % k, prob2[k], C.rbm_hidden_marginal(O, P2["am"], v))
-        G.eq("reparam.born[%d]" % k, psi2[0, k] * psi2[0, k] + psi2[1, k] * psi2[1, k], prob2[k])
+        G.eq("reparam.born[%d]" % k, psi2[0, k] * psi2[0, k] + psi2[1, k] * psi2[1, k], prob2[k], tol=1e-10)
     G.eq("reparam.Z", Z2, tot2)
     # sensitivity twins (must be refuted by the solver and replay as numeric differences)
     G.twin("twin_marginal", prob[0], 2 * C.rbm_hidden_marginal(O, P["am"], rows[0]))
